@@ -238,18 +238,25 @@ def _debug_work(chunk):
     ncmp = 0
     for s in chunk:
         rec = {'selector': s, 'problems': [], 'stdout_chars': 0, 'selected': 0}
+        plain = dbg = None
+        errs = [None, None]
         try:
             plain = sv.compile(s, namespaces=NAMESPACES, custom=CUSTOM)
         except Exception as e:
-            rec['pool_error'] = '%s: %s' % (type(e).__name__, str(e).split('\n')[0])
-            out.append(rec)
-            continue
+            errs[0] = '%s: %s' % (type(e).__name__, str(e).split('\n')[0])
         buf = io.StringIO()
         try:
             with contextlib.redirect_stdout(buf):
                 dbg = sv.compile(s, namespaces=NAMESPACES, custom=CUSTOM, flags=sv.DEBUG)
         except Exception as e:
-            rec['problems'].append('compile with DEBUG raised %s: %s' % (type(e).__name__, str(e).split('\n')[0]))
+            errs[1] = '%s: %s' % (type(e).__name__, str(e).split('\n')[0])
+        if errs[0] is not None and errs[0] == errs[1]:
+            rec['pool_error'] = errs[0]        # the pool is meant to be valid: a harness problem
+            out.append(rec)
+            continue
+        if errs[0] is not None or errs[1] is not None:
+            ncmp += 1
+            rec['problems'].append('compile without DEBUG: %s; with DEBUG: %s' % (errs[0] or 'compiles', errs[1] or 'compiles'))
             out.append(rec)
             continue
         rec['stdout_chars'] = len(buf.getvalue())
